@@ -403,11 +403,9 @@ def run(chk: Check, eng: Engine) -> None:
     else:
         chk.bad("R15-c", eng.relfile(fas), fas.line, fas.fq, "the non-regex branch does not return repr(self._value)",
                 "quotes, backslashes, non-ASCII and non-printable characters are not escaped the way the reader (eval) undoes", keyparts="not-repr")
-    clean = eng.method(term, "clean", inherited=False)
-    if any(isinstance(c, ast.Call) and call_name(c) == "eval" for c in walk_local(clean.node)):
-        chk.ok("R15-c", clean.fq, clean.line, "reader evaluates the literal with eval() - the inverse of repr()")
-    else:
-        chk.bad("R15-c", eng.relfile(clean), clean.line, clean.fq, "Terminal.clean no longer evaluates the literal", "printing and reading literals are no longer inverse", keyparts="not-eval")
+    from .c08 import literal_decoding
+
+    literal_decoding(chk, eng, "R15-c")
     tv = eng.cls("fandango.language.tree_value", "TreeValue")
     rp = eng.method(tv, "__repr__", inherited=False)
     rets = [n for n in walk_local(rp.node) if isinstance(n, ast.Return)]
